@@ -57,6 +57,26 @@ func retryLoop(c *Ctx, aspects map[string]bool) {
 		}
 		c.Fail(name+"#"+aspect, ps, msg, pathTrace(ev, p))
 	}
+	// blocked: a clause that the rest of a segment's clauses build on failed, so they are not evaluated on this path. A
+	// rule set that did not ask for the failing aspect must still hear that what it did ask for was not decided here.
+	blockedSeen := map[string]bool{}
+	blocked := func(failing string, p *Path, at *Event, why string) {
+		if aspects[failing] {
+			return // reported as a violation of the aspect itself
+		}
+		for _, a := range []string{"loop", "recheck", "returns", "wait", "listeners"} {
+			if a == failing || !aspects[a] || blockedSeen[a] {
+				continue
+			}
+			blockedSeen[a] = true
+			ok[a] = false
+			ps := pos
+			if at != nil {
+				ps = c.P.Pos(at.Instr.Pos())
+			}
+			c.Undecided(name+"#"+a, ps, "not decided on a path whose shape differs from the retry loop's: "+why, pathTrace(ev, p))
+		}
+	}
 	segments, completeSegs := 0, 0
 	for _, p := range paths {
 		evs := p.Events()
@@ -132,6 +152,7 @@ func retryLoop(c *Ctx, aspects map[string]bool) {
 			if canc == nil || firstAfter != canc {
 				if !(p.Exit == ExitCut && len(seg) == 1) {
 					fail("recheck", p, attempt, "the attempt's return is not immediately followed by a cancellation test of the execution (IsCanceledWithResult)")
+					blocked("recheck", p, attempt, "the attempt's return is not immediately followed by a cancellation test of the execution")
 				}
 				continue
 			}
@@ -145,6 +166,7 @@ func retryLoop(c *Ctx, aspects map[string]bool) {
 				}
 				if post == nil || post.Args[0] != exec || post.Args[1] != res {
 					fail("loop", p, evs[end], "a new attempt starts without PostExecute having handled the previous attempt's result")
+					blocked("loop", p, evs[end], "a new attempt starts without PostExecute having handled the previous attempt's result")
 					continue
 				}
 				pr := post.Res[0]
@@ -225,6 +247,15 @@ func retryLoop(c *Ctx, aspects map[string]bool) {
 							evt := onRetry.Args[0]
 							if !(evt.Op == "struct" && len(evt.Args) == 1 && copyOf(p, evt.Args[0], exec, post.Res[0])) {
 								good = false
+							}
+							// … taken after InitializeRetry: a copy carries the attempt start time of the moment it is made, and
+							// OnRetry announces the new attempt
+							if good && ini != nil {
+								for _, x := range p.Events() {
+									if isCall(x, "CopyWithResult") && len(x.Res) == 1 && x.Res[0] == evt.Args[0] && x.Idx < ini.Idx {
+										good = false
+									}
+								}
 							}
 						}
 						if !good {
